@@ -346,11 +346,15 @@ func TestVerifC19S(t *testing.T) {
 		}
 
 		add("perm+two-temps", "GSS", 1, "lastmap", 2, clean, true)
-		add("two-temps", "GS", 0, "stateA", 2, clean, true)
+
+		if clean == 0 { // ~10^5 executions
+			add("two-temps", "GS", 0, "stateA", 2, clean, true)
+		}
+
 		add("two-temps", "GS", 0, "statePolicy", 2, clean, false)
-		add("two-temps", "GO", 0, "stateA", 2, clean, false)
-		add("perm+two-temps", "GSO", 1, "stateB", 2, clean, false)
 		add("perm+two-temps", "GSP", 1, "stateA", 2, clean, false)
+		add("two-temps", "GO", 0, "stateA", 1, clean, false)
+		add("perm+two-temps", "GSO", 1, "stateB", 1, clean, false)
 		add("perm+three-temps", "GSPS", 1, "lastmap", 2, clean, false)
 
 		cfgs = append(cfgs,
